@@ -6,6 +6,7 @@ package main
 import (
 	"bytes"
 	"fmt"
+	"sort"
 	"strconv"
 	"strings"
 
@@ -54,13 +55,37 @@ func expectCopy(o [2]*oracle, f []string) (string, int) {
 		return "closed", 0
 	}
 	snap := map[string]string{}
+	var keys []string
 	for k, v := range so.m {
 		if strings.HasPrefix(k, rs) {
 			snap[k[len(rs):]] = v
+			keys = append(keys, k[len(rs):])
 		}
 	}
-	for k, v := range snap {
-		do.m[rd+k] = v
+	sort.Strings(keys) // the source is iterated forward
+	write := func(ks []string) {
+		for _, k := range ks {
+			do.m[rd+k] = snap[k]
+		}
+	}
+	if do.flushFails(do.stacks[atoi(f[4])]) {
+		// the target is a flushkv stack whose Flush fails: the first Set (Copy) / the first Commit (CopyBatched) takes effect
+		// and returns the error, which ends the copy
+		switch {
+		case f[0] == "copy" && len(keys) > 0:
+			write(keys[:1])
+		case f[0] == "copy":
+		case atoi(f[5]) != 0 && atoi(f[5]) <= len(keys):
+			write(keys[:atoi(f[5])])
+		default:
+			write(keys) // one batch, committed at the end
+		}
+
+		return "notfound", len(snap)
+	}
+	write(keys)
+	if do.armed { // everything is written, the final target.Flush() fails
+		return "notfound", len(snap)
 	}
 
 	return "ok", len(snap)
